@@ -1050,5 +1050,13 @@ class SMInterp(NAMixin, Interp):
         if name == 'len' and args and isinstance(args[0], (NSpace, NPSpace,
                                                            NPElem)):
             return len(args[0])
+        if name == 'sum' and len(args) == 1:
+            vals = list(self.seq(args[0]))
+            if vals and all(isinstance(v, (NElem, NPElem)) for v in vals):
+                # 0 + v0 + v1 + ...: the start value is absorbed
+                t = vals[0]
+                for v in vals[1:]:
+                    t = self.binop(ast.Add, t, v)
+                return t
         return super(SMInterp, self).py_builtin(name, args, kwargs, node,
                                                 scope, func)
